@@ -84,6 +84,7 @@ func ruleCompletion13(c *Ctx, r *Report) {
 	sort.Strings(lr)
 	r.Check(len(ls) == 1 && len(lr) == 1 && ls[0] != lr[0], rule, "last-flights", "", fmt.Sprintf("last send flight %v, last receive flight %v", ls, lr), fmt.Sprintf("the last send flight %v and the last receive flight %v are not two distinct single flights", ls, lr))
 
+	ownRow := map[string]bool{"transitionAfterACK": true, "send": true, "handleReceivedFlight": true, "advanceAfterReceivedFlight": true, "finish": true}
 	canFinish := func(fn *ssa.Function, flightVal int64, extra func(ssa.Value) (Val, bool)) (bool, ssa.Instruction) {
 		w := &Walk{Fn: fn, Follow: followModule, Assume: func(v ssa.Value) (Val, bool) {
 			if _, f, _, ok := fieldLoad(v); ok && f == "currentFlight" && isFlightT(v.Type()) {
@@ -97,7 +98,25 @@ func ruleCompletion13(c *Ctx, r *Report) {
 			}
 			return unknown, false
 		}}
-		at := producesState(w, fn, isStateT, fin)
+		// the function itself and the private helpers only it calls
+		own := map[*ssa.Function]bool{fn: true}
+		for _, u := range c.unitFuncs(fn) {
+			if ownRow[u.Name()] {
+				continue // decided in a row of its own
+			}
+			if sites, closed := c.staticCallers(u); closed && len(sites) > 0 {
+				only := true
+				for _, s := range sites {
+					if !own[s.Fn] {
+						only = false
+					}
+				}
+				if only {
+					own[u] = true
+				}
+			}
+		}
+		at := producesStateIn(w, own, isStateT, fin)
 		return at != nil, at
 	}
 	type target struct {
@@ -196,6 +215,11 @@ func ruleCompletion13(c *Ctx, r *Report) {
 // transition struct), evaluating the operand along each path (so a state obtained from a followed
 // helper counts).
 func producesState(w *Walk, fn *ssa.Function, isStateT func(types.Type) bool, want int64) ssa.Instruction {
+	return producesStateIn(w, map[*ssa.Function]bool{fn: true}, isStateT, want)
+}
+
+// producesStateIn is producesState over a set of functions (a function and its private helpers).
+func producesStateIn(w *Walk, fns map[*ssa.Function]bool, isStateT func(types.Type) bool, want int64) ssa.Instruction {
 	var at ssa.Instruction
 	hitv := func(v ssa.Value, env Env) bool {
 		v = unspill(v)
@@ -216,7 +240,7 @@ func producesState(w *Walk, fn *ssa.Function, isStateT func(types.Type) bool, wa
 		if prev != nil && !prev(in, env, raw) {
 			return false
 		}
-		if in.Parent() != fn {
+		if !fns[in.Parent()] {
 			return true
 		}
 		hit := false
@@ -328,18 +352,28 @@ func ruleCookieFlightNeverResent(c *Ctx, r *Report) {
 func ruleNoUnparsableFlight13(c *Ctx, r *Report) {
 	const rule = "no-unparsable-flight"
 	flights := c.enumConsts(pkgF13, "Flight")
-	reg := c.need(r, rule, pkgF13+".getFlightParser")
+	reg := c.need(r, rule, pkgF13+".Parse")
 	recv := c.need(r, rule, "(*"+pkgHS+".fsm13).handleReceivedFlight")
 	if reg == nil || recv == nil || len(flights) == 0 {
 		return
 	}
 	followModule := func(callee *ssa.Function) bool { return inModule(callee) }
+	var flightParam *ssa.Parameter
+	for _, p := range reg.Params {
+		if strings.HasSuffix(namedOrType(p.Type()), "internal/flight/flight13.Flight") {
+			flightParam = p
+		}
+	}
+	if flightParam == nil {
+		r.Unk(rule, short(reg), c.pos(reg.Pos()), "no Flight parameter")
+		return
+	}
 	n := 0
 	for _, name := range sortedKeys(flights) {
 		fv := flights[name]
-		// does the registry know a parser for this flight?
-		w := &Walk{Fn: reg, Assume: func(v ssa.Value) (Val, bool) {
-			if len(reg.Params) > 0 && v == ssa.Value(reg.Params[0]) {
+		// does the registry know a parser for this flight? (the last result of Parse)
+		w := &Walk{Fn: reg, Follow: followSamePkg(reg), Assume: func(v ssa.Value) (Val, bool) {
+			if v == ssa.Value(flightParam) {
 				return vInt(fv), true
 			}
 			return unknown, false
@@ -347,9 +381,18 @@ func ruleNoUnparsableFlight13(c *Ctx, r *Report) {
 		w.FromEntry()
 		has, hasNot := false, false
 		for _, ro := range w.Returns {
-			if len(ro.Raw) == 2 {
-				if k, isK := constBool(ro.Raw[1]); isK {
+			last := len(ro.Raw) - 1
+			if last >= 0 {
+				if k, isK := constBool(ro.Raw[last]); isK {
 					if k {
+						has = true
+					} else {
+						hasNot = true
+					}
+					continue
+				}
+				if ro.Vals[last].Kind == 1 {
+					if ro.Vals[last].B {
 						has = true
 					} else {
 						hasNot = true
